@@ -8,6 +8,7 @@ import builtins
 import keyword
 import multiprocessing as mp
 import os
+import re
 import typing as t
 
 from .core import Ctx
@@ -205,6 +206,19 @@ def c01_skeleton_rules(ctx: Ctx) -> None:
                         seen_err.add("indent")
                         ctx.bad(where, f"indentation not restored ({p.final_indent:+d})", f"{entry} leaves the indentation level changed by {p.final_indent:+d} under [{short_flags(p)}]", f"src/jinja2/{gen.split(':')[0]}.py")
                     continue
+                # a visited child statement may emit nothing at all (visit_Output drops output
+                # after a known extends, an empty `{% print %}`): the skeleton must still parse
+                # when its statement holes vanish - every suite needs a statement of its own
+                if "__S" in sk.text and kind == "stmt":
+                    lines_ = [ln for ln in sk.text.split("\n") if not re.fullmatch(r"\s*__S\d+__\s*", ln)]
+                    try:
+                        ast.parse("async def __w__():\n" + ("\n".join(lines_) if "".join(lines_).strip() else "    pass") + "\n")
+                    except SyntaxError as e:
+                        if "empty-suite" not in seen_err:
+                            seen_err.add("empty-suite")
+                            ctx.bad(where, "a suite consists of visited statements only",
+                                    f"{entry} opens a block whose only content is what the visited child statements emit ({type(e).__name__}: {e.msg}); a child that emits nothing (output after a static extends, an empty print) leaves `if ...:` without a suite and CPython rejects the module with IndentationError:\n{sk.text[:200]}", f"src/jinja2/{gen.split(':')[0]}.py")
+                        continue
                 tree = reparse(sk, entry, kind)
                 free = _free_names(tree) if tree is not None else set()
                 bad = {n for n in free if not _name_ok(n, exported)}
@@ -216,6 +230,14 @@ def c01_skeleton_rules(ctx: Ctx) -> None:
                     continue
                 ctx.ok(f"{gen}:{entry}:{total}", detail={"entry": entry, "flags": short_flags(p, 4), "skeleton": sk.text[:200]} if total % 997 == 1 else None, trivial=False)
     ctx.floor("skeletons parsed", total, 3000)
+    # blockvisit (summarised in the emission model as "pass + the visited statements") really
+    # writes that placeholder on every path: the children it visits may emit nothing
+    bv = repo.func("compiler:CodeGenerator.blockvisit")
+    ps = [c for c in astq.calls(bv.node) if astq.callee(c) == "self.writeline" and c.args and isinstance(c.args[0], ast.Constant) and c.args[0].value == "pass"]
+    loops_bv = [l_ for l_ in ast.walk(bv.node) if isinstance(l_, ast.For)]
+    ctx.check(len(ps) >= 1 and any(not astq.guard_atoms(bv.node, c) and (not loops_bv or (c.lineno, c.col_offset) < (loops_bv[0].lineno, loops_bv[0].col_offset)) for c in ps), "blockvisit:placeholder", "compiler:CodeGenerator.blockvisit", "placeholder statement not written on every path",
+              "blockvisit must write `pass` unconditionally before visiting the body: a body whose nodes all emit nothing (output after a static `{% extends %}`, an empty `{% print %}`) otherwise leaves `if ...:` / `else:` without a suite and loading the template raises builtins.IndentationError",
+              bv.loc())
     # a skeleton that only parses inside its wrapper context (EXPR_WRAP: a bare `a:b` slice is
     # valid directly inside brackets only) obliges the parser to produce that node in that
     # position only; a value of parse_subscribed() (which may be a Slice) that is packed into
